@@ -31,7 +31,9 @@
    inner braces (the fact behind repair 86fc68a, `p{{$}}`), with C04_tokenize_nested, C04_nested_closing_brace,
    C04_parse_nested, C04_nested_value_text, C04_nested_value_flat, C04_nested_scanner, C04_nested_repeated (copy i
    of `name{P}*N`); C04_nested_extends_text_literal shows C04_text_literal is its one-run case; C04_attr_expr_nested /
-   C04_tokenize_attr_nested: the same payloads as an `{expression}` attribute value `name[n={P}]` (proofs/AttrNested.v).
+   C04_tokenize_attr_nested / C04_attr_expr_nested_repeated: the same payloads as an `{expression}` attribute value
+   `name[n={P}]`, alone and `*N` (proofs/AttrNested.v); C04_expand_nested: `name{P}` through markup.parse and the HTML
+   formatter (proofs/ExpandNested.v).
    Not covered by a theorem: `$` numbering / fields inside quoted / unquoted attribute values, text written
    between the attribute parts (`a{t}.c`), text under the haml / pug / slim formatters -- these are
    covered by the model/implementation correspondence and the oracle. *)
@@ -406,7 +408,7 @@ Proof. eexists. split; [vm_compute; reflexivity|]. cbn. repeat split; repeat con
    [nested_value reps P]: the node value -- runs unescaped, counters replaced by the counter in force under the
    repeater stack [reps] zero-padded (C02_numbering_value), `$#` by nothing (no wrap text), neighbouring strings
    glued into one string, fields kept as fields. *)
-From Emmet Require Import proofs.NumberingProofs proofs.ConvertProofs proofs.TextNested proofs.AttrNested.
+From Emmet Require Import proofs.NumberingProofs proofs.ConvertProofs proofs.TextNested proofs.AttrNested proofs.ExpandNested.
 
 (* text_nested.  For EVERY such payload and every element name, the front end (tokenize, parse, convert) turns
    `name{P}` into the single node `name` whose value is the payload: literal runs verbatim with escapes resolved
@@ -521,6 +523,41 @@ Theorem C04_tokenize_attr_nested :
 Proof. exact tokenize_attr_nested. Qed.
 Print Assumptions C04_tokenize_attr_nested.
 
+(* ... and repeated: `name[n={P}]*N` gives N nodes, copy i (0-based) with the attribute value under the stack [(N, i)]
+   -- every counter inside the expression, at whatever brace depth, prints the value of copy i+1 *)
+Theorem C04_attr_expr_nested_repeated :
+  forall (jsx : bool) (env : cenv) (max_repeat : option N) (name n : str) (P : payload) (ds : str),
+    word_ok name -> plain_attr_name n -> payload_ok P = true -> all_digits ds -> ds <> [] -> ce_text env = WNone ->
+    let N0 := count_of ds in
+    (Z.of_N N0 <= budget_of max_repeat)%Z ->
+    (* attr_nested_text name n P = name ++ "[" ++ n ++ "={" ++ payload_text P ++ "}]" *)
+    parse_abbr jsx env max_repeat (attr_nested_text name n P ++ c_star :: ds) =
+      Ok (map (fun i => ANode (Some name) None (Some (mkRep N0 i false))
+                              (Some [mkAAttr (Some n) (Some (attr_nested_value [mkRep N0 i false] P)) VExpr false false false])
+                              [] false)
+              (nseq (N.to_nat N0) 0%N)).
+Proof. exact attr_expr_nested_repeated. Qed.
+Print Assumptions C04_attr_expr_nested_repeated.
+
+(* expand_nested.  `name{P}` through the WHOLE pipeline (markup.parse: snippets, transform; HTML formatter): expand writes
+   <name>TEXT</name>  with TEXT = [payload_out [] P] -- the payload with escapes resolved, inner braces kept, every counter
+   replaced by its value (1: no repeater), a field by its placeholder -- and nothing else between the tags.
+   Hypotheses as in C04_expand_text_element ([value_inline]: the text has no line break and does not start with a
+   block-level tag). *)
+Theorem C04_expand_nested :
+  forall (x : xconfig) (name : str) (P : payload),
+    let m := xc_m x in
+    let c := xc_o x in
+    name_ok name -> payload_ok P = true -> mc_text m = WNone ->
+    assoc_str name (mc_snippets m) = None -> match_lorem name = LNo -> mc_bem m = false ->
+    html_family (mc_syntax m) -> oc_comment_enabled c = false ->
+    oc_format_leaf c = false -> mem_str name (oc_format_force c) = false ->
+    value_inline c (nested_value [] P) ->
+    expand_markup_str x (name ++ c_lbrace :: payload_text P ++ [c_rbrace]) =
+      Ok (c_lt :: tag_name c name ++ [c_gt] ++ payload_out [] P ++ [c_lt; c_slash] ++ tag_name c name ++ [c_gt]).
+Proof. exact expand_nested. Qed.
+Print Assumptions C04_expand_nested.
+
 (* non-vacuity: `p{a{$}b{{$$@-}c}${1:x{y}}}` -- counters one and two braces deep, a field whose placeholder holds
    braces; the hypotheses hold and the conclusion computes, alone and as `...*2` *)
 Definition nested_example : payload :=
@@ -553,6 +590,19 @@ Proof.
   split; [split; [discriminate|repeat split; reflexivity]|].
   split; [vm_compute; reflexivity|]. split; vm_compute; reflexivity.
 Qed.
+
+(* non-vacuity of expand_nested and attr_expr_nested_repeated *)
+Example C04_expand_nested_nonvacuous :
+  let x := mkX (mkMConfig (S "html") [] [] WNone None None false None [] false false false [] [] None)
+               (mkOconfig (mkOfmt [] [] []) [] [] (S "double") true false [] [] 0 false [] (S "html") [] false [] [] []
+                          false None None) in
+  value_inline (xc_o x) (nested_value [] nested_example) /\
+  expand_markup_str x (S "p{a{$}b{{$$@-}c}${1:x{y}}}") = Ok (S "<p>a{1}b{{01}c}x{y}</p>") /\
+  option_map (map an_attrs)
+    (match parse_abbr false (mkCenv WNone [] false) None (S "p[t={x{$@-}y}]*2") with Ok l => Some l | _ => None end) =
+    Some [Some [mkAAttr (Some (S "t")) (Some [VStr (S "x{2}y")]) VExpr false false false];
+          Some [mkAAttr (Some (S "t")) (Some [VStr (S "x{1}y")]) VExpr false false false]].
+Proof. cbv zeta. split; [vm_compute; repeat constructor|]. split; vm_compute; reflexivity. Qed.
 
 (* the theorem was FALSE before repair 86fc68a: with the tokenizer as it was ([tokenize_old]: literal() takes the
    depth it is resumed at for the depth of the text) `p{{$}}` -- payload ("{", [($, "}")]), in the domain of
